@@ -113,6 +113,7 @@ Verdict runC17(const Case &cs) {
     if (pipe(fd)) { v.st = V_INCONCLUSIVE; return v; }
     pid_t pid = fork();
     if (pid == 0) {
+      reattachReports();
       close(fd[0]);
       Script sc;
       runScript(cs, k, sc);
